@@ -43,6 +43,7 @@ type half struct {
 	rclosed bool // reader shut its side: reads return EOF, writes are discarded
 	reset   bool
 	total   int // bytes ever written
+	window  int // how many unread bytes fit (receive buffer + send queue); 0 = unbounded
 }
 
 // VConn is one end of a virtual connection.
@@ -65,6 +66,11 @@ type VConn struct {
 	ReadN    int // completed Read calls
 	WriteN   int
 	shutRead bool
+	// TCP_USER_TIMEOUT (controlled executions): how long data this end wrote may stay queued without progress
+	// (peer's window closed) before the kernel aborts the connection
+	userTimeout time.Duration
+	utArmed     *sched.Timer
+	utExpired   bool
 }
 
 type registry struct {
@@ -76,7 +82,22 @@ type registry struct {
 	holdDials bool              // connects are in progress (SYN sent) until released
 	holdAddrs map[string]bool   // (only to these addresses, when set)
 	heldDials int
+	window    int // socket buffer size of connections created from now on (0 = unbounded)
 }
+
+// SetWindow bounds, for connections created from now on, how many unread bytes may be queued towards an end
+// (the receiver's socket buffer plus the sender's send queue): a Write blocks while that much is unread, as on a
+// real socket whose reader is slow. 0 (the default) never blocks.
+func SetWindow(n int) { defer regLock()(); reg().window = n }
+
+// SetUserTimeout mirrors the TCP_USER_TIMEOUT socket option (RFC 5482, tcp(7)): when data written by this end
+// stays queued for that long without any progress - which includes a peer that keeps its receive window closed -
+// the kernel aborts the connection: the blocked Write fails with ETIMEDOUT, the peer sees a reset and whatever
+// was not read yet is lost. Only connections with a bounded window (SetWindow) can get into that state.
+func (c *VConn) SetUserTimeout(d time.Duration) { defer c.lock()(); c.userTimeout = d }
+
+// UserTimeout returns what SetUserTimeout set.
+func (c *VConn) UserTimeout() time.Duration { defer c.lock()(); return c.userTimeout }
 
 // HoldDials makes every Dial wait, as a connect that takes its time, until HoldDials(false) releases them
 // (controlled executions only; to the given addresses only when some are given). HeldDials reports how many
@@ -179,7 +200,7 @@ func (c *VConn) String() string {
 }
 
 func newPair(r *registry, client, server Addr) (*VConn, *VConn) {
-	a2b, b2a := &half{}, &half{}
+	a2b, b2a := &half{window: r.window}, &half{window: r.window}
 	a := &VConn{id: len(r.conns), in: b2a, out: a2b, local: client, remote: server}
 	b := &VConn{id: len(r.conns) + 1, in: a2b, out: b2a, local: server, remote: client, server: true}
 	a.peer, b.peer = b, a
@@ -293,29 +314,61 @@ func (c *VConn) Read(b []byte) (int, error) {
 	panic("vnet: read scheduled while not ready")
 }
 
+func (c *VConn) writeReady() bool {
+	return c.out.window == 0 || len(c.out.buf) < c.out.window || c.closed || c.out.wclosed || c.out.reset || c.peer.closed ||
+		c.wrExp || c.out.rclosed || c.utExpired
+}
+
 func (c *VConn) Write(b []byte) (int, error) {
 	defer c.lock()()
-	sched.Op("net-write", c)
-	c.maybeFault("write")
-	c.WriteN++
-	switch {
-	case c.closed:
-		return 0, opErr("write", c, errClosed)
-	case c.out.wclosed:
-		return 0, opErr("write", c, syscall.EPIPE)
-	case c.out.reset:
-		return 0, opErr("write", c, syscall.ECONNRESET)
-	case c.peer.closed:
-		return 0, opErr("write", c, syscall.EPIPE)
-	case c.wrExp:
-		return 0, opErr("write", c, os.ErrDeadlineExceeded)
+	written := 0
+	for first := true; ; first = false {
+		if c.userTimeout > 0 && c.utArmed == nil && sched.E != nil && !c.writeReady() {
+			// the data waits in the send queue until the reader makes room: the user timeout runs
+			c.utArmed = sched.AddTimer(int64(c.userTimeout), func() { c.utExpired = true })
+		}
+		c.wait("net-write", c.writeReady)
+		if first {
+			c.maybeFault("write")
+			c.WriteN++
+		}
+		switch {
+		case c.closed:
+			return written, opErr("write", c, errClosed)
+		case c.out.wclosed:
+			return written, opErr("write", c, syscall.EPIPE)
+		case c.out.reset:
+			return written, opErr("write", c, syscall.ECONNRESET)
+		case c.peer.closed:
+			return written, opErr("write", c, syscall.EPIPE)
+		case c.wrExp:
+			return written, opErr("write", c, os.ErrDeadlineExceeded)
+		case c.utExpired:
+			// the kernel gave up on the queued data: connection aborted
+			c.in.reset, c.out.reset = true, true
+			c.in.buf, c.out.buf = nil, nil
+			return written, opErr("write", c, syscall.ETIMEDOUT)
+		}
+		if c.out.rclosed {
+			c.out.total += len(b)
+			return written + len(b), nil // peer shut its read side: silently discarded
+		}
+		n := len(b)
+		if c.out.window > 0 && n > c.out.window-len(c.out.buf) {
+			n = c.out.window - len(c.out.buf)
+		}
+		c.out.total += n
+		c.out.buf = append(c.out.buf, b[:n]...)
+		written += n
+		b = b[n:]
+		if n > 0 || len(b) == 0 {
+			c.utArmed.Stop() // progress
+			c.utArmed = nil
+		}
+		if len(b) == 0 {
+			return written, nil
+		}
 	}
-	c.out.total += len(b)
-	if c.out.rclosed {
-		return len(b), nil // peer shut its read side: silently discarded
-	}
-	c.out.buf = append(c.out.buf, b...)
-	return len(b), nil
 }
 
 // SetLinger mirrors (*net.TCPConn).SetLinger. With sec == 0 Close discards whatever this end wrote that the
